@@ -395,6 +395,11 @@ void __asan_unpoison_memory_region(void const volatile *addr, size_t size);
 #define RC_MAXSZ 8192
 #define RC_TAB (1 << 16)
 static int a_recycle;
+/* track mode: every block the allocator hands out is remembered, and a pointer given to the free function that was never
+ * handed out (a block that belongs to libcrypto, GnuTLS or libc: with a pool or arena behind jwt_set_alloc that is heap
+ * corruption) is reported.  The table has room for 32 k live blocks; if it ever fills, tracking switches itself off. */
+static int a_track, a_track_overflow;
+static long a_foreign;
 static struct { void *p; size_t n; } rc_tab[RC_TAB];   /* live blocks handed out in recycle mode (open addressing) */
 static long rc_tab_used, rc_tombs;
 static struct { void **v; int n, cap; } rc_bucket[RC_MAXSZ + 1];
@@ -402,8 +407,10 @@ static long rc_reused;
 static unsigned rc_slot(void *p) { return (unsigned)(((uintptr_t)p >> 4) * 2654435761u) & (RC_TAB - 1); }
 static void rc_tab_add(void *p, size_t n)
 {
-	if (rc_tab_used > RC_TAB / 2)
+	if (rc_tab_used > RC_TAB / 2) {
+		a_track_overflow = 1;
 		return;   /* table full: the block is simply not recycled later */
+	}
 	unsigned i = rc_slot(p);
 	while (rc_tab[i].p && rc_tab[i].p != (void *)-1)
 		i = (i + 1) & (RC_TAB - 1);
@@ -463,6 +470,8 @@ void vf_alloc_recycle(int on)
 	/* blocks still live keep their entries until they are freed */
 }
 long vf_alloc_reused(void) { return rc_reused; }
+void vf_alloc_track(int on) { a_track = on; }
+long vf_alloc_foreign(void) { return a_foreign; }
 
 static void *vf_malloc(size_t n)
 {
@@ -485,8 +494,11 @@ static void *vf_malloc(size_t n)
 			p = malloc(n);
 		if (p)
 			rc_tab_add(p, n);
-	} else
+	} else {
 		p = a_guard ? guard_alloc(n) : malloc(n);
+		if (p && a_track && !a_guard)
+			rc_tab_add(p, n);
+	}
 	if (p)
 		a_live++;
 	return p;
@@ -499,8 +511,14 @@ static void vf_free(void *p)
 		a_live--;
 	if (p && a_guard && guard_free(p))
 		return;
-	if (p && rc_tab_used > 0) {
+	if (p && (rc_tab_used > 0 || a_track)) {
 		size_t n = rc_tab_take(p);
+		if (!n && a_track && !a_track_overflow && !a_guard) {
+			/* not ours: report (the first few), do not count it as one of our blocks going away */
+			a_live++;
+			if (a_foreign++ < 3)
+				vf_violation("allocator|foreign-free", "the free function installed with jwt_set_alloc was handed %p, a block the matching allocation function never returned", p);
+		}
 		if (n) {
 			if (a_recycle) {
 				if (rc_bucket[n].n == rc_bucket[n].cap) {
